@@ -159,7 +159,7 @@ pub fn cmd_loop_run(args: &[String]) -> i32 {
             });
             let line = match res {
                 Ok((a, out, info)) => json!({"e":"pair","mode":"loop","job":tag,"case":ri,"cut":0,"K":0,"cont":"all","down":[],
-                    "pre":{"osp":0,"ost":0,"nosk":0,"kdiff":false,"cv2edge":false,"drec":false},"gap":[],"info":info,
+                    "pre":{"osp":0,"ost":0,"nosk":0,"kdiff":false,"cv2edge":false,"drec":false,"xw":0},"gap":[],"info":info,
                     "A":a,"B":[{"e":"t","n":1,"out":out,"idle":true,"cb":true}]}),
                 Err(e) => json!({"e":"looperror","job":tag,"case":ri,"msg":e}),
             };
@@ -203,7 +203,7 @@ pub fn cmd_tick_budget(args: &[String]) -> i32 {
         let us = t0.elapsed().as_micros() as u64;
         if a == 0 && us < 900 {
             writeln!(w, "{}", json!({"e":"pair","mode":"tickclock","job":"tickclock","case":clean,"cut":0,"K":0,"cont":"all",
-                "down":[],"pre":{"osp":0,"ost":0,"nosk":0,"kdiff":false,"cv2edge":false,"drec":false},"gap":[],"A":[],"B":[],
+                "down":[],"pre":{"osp":0,"ost":0,"nosk":0,"kdiff":false,"cv2edge":false,"drec":false,"xw":0},"gap":[],"A":[],"B":[],
                 "ticks":[a, b],"elapsed_us":us})).unwrap();
             clean += 1;
         }
